@@ -9,6 +9,8 @@ import (
 	"math/big"
 	"strconv"
 	"strings"
+	"sync"
+	"sync/atomic"
 
 	"verifharness/hx"
 
@@ -315,6 +317,78 @@ func clamp(k kind, z *big.Int) *big.Int {
 	return z
 }
 
+// sweep16 enumerates, for every x of a 16-bit type, all y near the boundaries and zero and every 7th y
+// elsewhere (about 2^29 pairs per type) against an int64 oracle (no Lean involved: the theorems already cover
+// every width; a complete 2^32 enumeration costs ~25 minutes because every overflow formats an error).
+func sweep16[T safemath.Integer](r *hx.Run, name string, lo, hi int64) (evals int64) {
+	var wg sync.WaitGroup
+	var total atomic.Int64
+	workers := 16
+	for w := 0; w < workers; w++ {
+		wg.Add(1)
+		go func(w int) {
+			defer wg.Done()
+			var n int64
+			check := func(op string, x, y int64, got T, err error, exact int64, dz bool) {
+				n++
+				want := "ok"
+				if dz {
+					want = "divzero"
+				} else if exact < lo || exact > hi {
+					want = "overflow"
+				}
+				g := "ok"
+				if errors.Is(err, safemath.ErrIntegerOverflow) {
+					g = "overflow"
+				} else if errors.Is(err, safemath.ErrIntegerDivisionByZero) {
+					g = "divzero"
+				}
+				if g != want || (g == "ok" && int64(got) != exact) {
+					r.Fail("exact-or-overflow", fmt.Sprintf("Safe %s[%s](%d,%d) = %d,%s; exact %d (%s)", op, name, x, y, int64(got), g, exact, want),
+						map[string]string{"fn": op, "type": name, "class": "sweep16"})
+				}
+			}
+			for x := lo + int64(w); x <= hi; x += int64(workers) {
+				for y := lo; y <= hi; y++ {
+					// all y near the boundaries and near zero, every 7th y elsewhere (phase shifted per x)
+					if d := y - lo; d > 600 && hi-y > 600 && (y > 600 || y < -600) && (d+x)%7 != 0 {
+						continue
+					}
+					a, b := T(x), T(y)
+					v, err := safemath.SafeAdd(a, b)
+					check("add", x, y, v, err, x+y, false)
+					v, err = safemath.SafeSub(a, b)
+					check("sub", x, y, v, err, x-y, false)
+					v, err = safemath.SafeMul(a, b)
+					check("mul", x, y, v, err, x*y, false)
+					v, err = safemath.SafeDiv(a, b)
+					if y == 0 {
+						check("div", x, y, v, err, 0, true)
+					} else {
+						check("div", x, y, v, err, x/y, false)
+					}
+				}
+				for sh := 0; sh <= 255; sh++ {
+					v, err := safemath.SafeLeftShift(T(x), uint8(sh))
+					exact := int64(1) << 40 // out of range marker
+					if x == 0 {
+						exact = 0
+					} else if sh < 20 {
+						exact = x << uint(sh)
+					} else if x < 0 {
+						exact = -(int64(1) << 40)
+					}
+					check("shl", x, int64(sh), v, err, exact, false)
+				}
+			}
+			total.Add(n)
+		}(w)
+	}
+	wg.Wait()
+
+	return total.Load()
+}
+
 func main() {
 	r := hx.Start()
 	r.MaxSamples = 2
@@ -367,6 +441,9 @@ func main() {
 		}
 	}
 	r.Extra["exhaustive_8bit"] = true
+	if r.Tier == "thorough" {
+		r.Extra["dense_16bit_oracle_only_evaluations"] = sweep16[uint16](r, "u16", 0, 65535) + sweep16[int16](r, "i16", -32768, 32767)
+	}
 	// sampled wide types
 	n := 2000 * r.Scale
 	for _, k := range kinds[2:] {
